@@ -470,3 +470,34 @@ def untraced():
     if not is_tracing():
         return _Null()
     return NoTracing()
+
+
+def _chfix_hash_contract():
+    """Tool work-around (CrossHair 0.0.110, applied in the worker process only; no-op elsewhere).
+
+    CrossHair replaces builtin `hash` by `crosshair.libimpl.builtinslib._hash`, whose docstring
+    carries a PEP 316 contract (`post[]: -2**63 <= _ < 2**63`).  Under analysis kind PEP316 every
+    traced call of `hash(x)` - e.g. `pathlib.PurePath.__hash__`, hit by every dict / set of paths
+    in files_condition.literal and matches_non_full - is then a candidate for "short-circuiting":
+    in a parallel branch the call is replaced by a FREE symbolic int (reconciled later), which
+    makes dict look-ups fork without bound and the search ends in CANNOT_CONFIRM.  The work-around
+    makes CrossHair never short-circuit `_hash`: its body (the real hash) is always executed -
+    strictly more precise, nothing is assumed."""
+    try:
+        import crosshair.core as core
+    except ImportError:
+        return
+    orig = core.consider_shortcircuit
+    if getattr(orig, '_c15_patched', False):
+        return
+
+    def consider_shortcircuit(fn, *a, **kw):
+        if getattr(fn, '__name__', '') == '_hash' and kw.get('allow_interpretation', True):
+            return None
+        return orig(fn, *a, **kw)
+
+    consider_shortcircuit._c15_patched = True
+    core.consider_shortcircuit = consider_shortcircuit
+
+
+_chfix_hash_contract()
